@@ -60,9 +60,9 @@ Proof. intros ty provided o1 o2 ND P. unfold ctor_site. now rewrite (ksort_order
 Print Assumptions C12_ctor_diag_deterministic.
 
 (* D2 trait-conformance diagnostics (model and class variant) *)
-Theorem C12_trait_diag_deterministic : forall tr o1 o2,
-  NoDup (map fst o1) -> Permutation o1 o2 -> trait_site tr o1 = trait_site tr o2.
-Proof. intros tr o1 o2 ND P. unfold trait_site. now rewrite (ksort_order_free o1 o2 ND P). Qed.
+Theorem C12_trait_diag_deterministic : forall tr ty o1 o2,
+  NoDup (map fst o1) -> Permutation o1 o2 -> trait_site tr ty o1 = trait_site tr ty o2.
+Proof. intros tr ty o1 o2 ND P. unfold trait_site. now rewrite (ksort_order_free o1 o2 ND P). Qed.
 Print Assumptions C12_trait_diag_deterministic.
 
 (* F1 `incan test -v` fixture listing and the autouse fixture order *)
@@ -93,7 +93,7 @@ Example C12_regression_witnesses :
   manifest_site g [(s "regex", Some (s """1.0""")); (s "rand", Some (s """0.8"""))] /\
   ctor_site (s "Pt") [] [(s "x", false); (s "y", false)] = ctor_site (s "Pt") [] [(s "y", false); (s "x", false)] /\
   List.length (ctor_site (s "Pt") [] [(s "x", false); (s "y", false)]) = 2%nat /\
-  trait_site (s "Shape") [(s "area", Missing); (s "name", Missing)] = trait_site (s "Shape") [(s "name", Missing); (s "area", Missing)] /\
+  trait_site (s "Shape") (s "Sq") [(s "area", Missing); (s "name", Mismatch)] = trait_site (s "Shape") (s "Sq") [(s "name", Mismatch); (s "area", Missing)] /\
   fixture_listing_site [(s "db", true); (s "tmp", true)] = fixture_listing_site [(s "tmp", true); (s "db", true)] /\
   autouse_site [(s "db", true); (s "tmp", true)] = autouse_site [(s "tmp", true); (s "db", true)].
 Proof. cbv zeta. repeat split; vm_compute; reflexivity. Qed.
